@@ -804,3 +804,147 @@ Lemma tanh_layer_ldj : layer_ldj tanh_layer.
 Proof. intros x _. apply tanh_ldj. Qed.
 Lemma leaky_layer_ldj m : 0 < m -> layer_ldj (leaky_layer m).
 Proof. intros H x _. apply leaky_ldj, H. Qed.
+
+(* ------------------------------------------------------------------------------------ *)
+(* Invert at rank 0: the log-det Invert reports in its forward direction (the inner inverse
+   log-det = minus the inner forward one at g y) is ln |g'(y)| for the inverse map g.
+   _partial: differentiability of the inverse at y (the inverse function theorem) is a hypothesis. *)
+Lemma inverse_is_ldj_partial (f g : R -> R) (y lf e eps : R) :
+  is_ldj f (g y) lf -> 0 < eps -> (forall t, y - eps < t < y + eps -> f (g t) = t) ->
+  is_derive g y e -> is_ldj g y (- lf).
+Proof.
+  intros [d [D [N L]]] He Hfg Dg.
+  assert (C1 : is_derive (fun t => f (g t)) y (e * d)) by (apply (is_derive_comp f g y d e D Dg)).
+  assert (C2 : is_derive (fun t => f (g t)) y 1).
+  { apply (is_derive_loc _ (fun t => t) y 1 eps He Hfg). auto_derive; [exact I | ring]. }
+  assert (E : e * d = 1).
+  { apply is_derive_unique in C1. apply is_derive_unique in C2. rewrite <- C1, <- C2. reflexivity. }
+  assert (Ne : e <> 0) by (intros ->; lra).
+  exists e. split; [exact Dg | split; [exact Ne|]].
+  assert (E2 : Rabs e * Rabs d = 1) by (rewrite <- Rabs_mult, E; apply Rabs_R1).
+  assert (Pd : 0 < Rabs d) by (apply Rabs_pos_lt, N).
+  replace (Rabs e) with (/ Rabs d) by (apply Rmult_eq_reg_r with (Rabs d); [rewrite E2; field|]; lra).
+  rewrite ln_Rinv by exact Pd. rewrite L. reflexivity.
+Qed.
+
+(* Invert of a rank-0 layer reports ln |derivative| in its own forward direction, provided the
+   inner layer does, its codomain is open and its inverse map is differentiable there *)
+Definition open_set (S : R -> Prop) : Prop :=
+  forall y, S y -> exists eps, 0 < eps /\ forall t, y - eps < t < y + eps -> S t.
+Lemma invert_layer_ldj (l : layer R) :
+  layer_ok l -> layer_ldj l -> open_set (l_cod l) ->
+  (forall y, l_cod l y -> exists e, is_derive (l_inv l) y e) ->
+  layer_ldj (invert_layer l).
+Proof.
+  intros [Ok1 Ok2] Hl Hopen Hd y Hy. cbn [invert_layer l_fwd l_ldf l_dom] in *.
+  destruct (Ok2 y Hy) as [Hdom [_ Hld]]. rewrite Hld.
+  destruct (Hopen y Hy) as [eps [He Hin]]. destruct (Hd y Hy) as [e De].
+  apply (inverse_is_ldj_partial (l_fwd l) (l_inv l) y _ e eps); [apply Hl, Hdom | exact He | | exact De].
+  intros t Ht. apply Ok2, Hin, Ht.
+Qed.
+
+Lemma open_Rall : open_set Rall.
+Proof. intros y _. exists 1. split; [lra | intros; exact I]. Qed.
+Lemma open_pos : open_set (fun y => 0 < y).
+Proof. intros y Hy. exists y. split; [exact Hy | intros t Ht; lra]. Qed.
+Lemma open_unit : open_set (fun y => -1 < y < 1).
+Proof.
+  intros y Hy. exists (Rmin (y + 1) (1 - y)). split; [apply Rmin_pos; lra|].
+  intros t Ht. pose proof (Rmin_l (y + 1) (1 - y)). pose proof (Rmin_r (y + 1) (1 - y)). lra.
+Qed.
+
+Lemma ath_deriv y : -1 < y < 1 -> is_derive ath y (/ (1 - y * y)).
+Proof.
+  intros Hy. unfold ath. auto_derive.
+  - split; [lra|]. split; [|exact I]. apply Rmult_lt_0_compat; [lra | apply Rinv_0_lt_compat; lra].
+  - field. repeat split; nra.
+Qed.
+
+Lemma affine_inv_layer_ldj loc scale : scale <> 0 -> layer_ldj (invert_layer (affine_layer loc scale)).
+Proof.
+  intros Hs. apply invert_layer_ldj; [apply affine_layer_ok, Hs | apply affine_layer_ldj, Hs | apply open_Rall |].
+  intros y _. exists (/ scale). cbn [affine_layer l_inv]. unfold affine_inv; ru. auto_derive; [first [exact I | exact Hs] | field; exact Hs].
+Qed.
+Lemma scale_inv_layer_ldj scale : scale <> 0 -> layer_ldj (invert_layer (scale_layer scale)).
+Proof.
+  intros Hs. apply invert_layer_ldj; [apply scale_layer_ok, Hs | apply scale_layer_ldj, Hs | apply open_Rall |].
+  intros y _. exists (/ scale). cbn [scale_layer l_inv]. unfold scale_inv; ru. auto_derive; [first [exact I | exact Hs] | field; exact Hs].
+Qed.
+Lemma loc_inv_layer_ldj loc : layer_ldj (invert_layer (loc_layer loc)).
+Proof.
+  apply invert_layer_ldj; [apply loc_layer_ok | apply loc_layer_ldj | apply open_Rall |].
+  intros y _. exists 1. cbn [loc_layer l_inv]. unfold loc_inv; ru. auto_derive; [exact I | ring].
+Qed.
+Lemma exp_inv_layer_ldj : layer_ldj (invert_layer exp_layer).
+Proof.
+  apply invert_layer_ldj; [apply exp_layer_ok | apply exp_layer_ldj | apply open_pos |].
+  intros y Hy. cbn [exp_layer l_cod l_inv] in *. exists (/ y). unfold exp_inv; ru. auto_derive; [exact Hy | field; lra].
+Qed.
+Lemma softplus_inv_layer_ldj : layer_ldj (invert_layer softplus_layer).
+Proof.
+  apply invert_layer_ldj; [apply softplus_layer_ok | apply softplus_layer_ldj | apply open_pos |].
+  intros y Hy. cbn [softplus_layer l_cod l_inv] in *.
+  assert (H1 : exp (- y) < 1) by (rewrite <- exp_0; apply exp_increasing; lra).
+  eexists. unfold softplus_inv; ru. auto_derive; [lra | reflexivity].
+Qed.
+Lemma tanh_inv_layer_ldj : layer_ldj (invert_layer tanh_layer).
+Proof.
+  apply invert_layer_ldj; [apply tanh_layer_ok | apply tanh_layer_ldj | apply open_unit |].
+  intros y Hy. cbn [tanh_layer l_cod l_inv] in *. exists (/ (1 - y * y)). apply ath_deriv, Hy.
+Qed.
+
+Section LeakyInvDeriv.
+  Variable m : R.
+  Hypothesis m_pos : 0 < m.
+  Let g := leaky_grad ROps m.
+  Let ic := leaky_icpt ROps m.
+  Let finv := leaky_inv ROps m g ic.
+
+  Lemma lin_deriv_div a b c x : c <> 0 -> is_derive (fun y => (y + a) / c + b) x (/ c).
+  Proof. intros Hc. auto_derive; [first [exact I | exact Hc] | field; exact Hc]. Qed.
+
+  (* LeakyTanh.inverse is differentiable at every real y, +-tanh(max_val) included *)
+  Lemma leaky_inv_deriv y : exists e, is_derive finv y e.
+  Proof.
+    pose proof (thm_pos m m_pos) as Ht. pose proof (dth_pos m) as Hg. pose proof (th_bounds m) as Hb.
+    assert (Hgn : dth m <> 0) by lra.
+    assert (Eath : / (1 - th m * th m) = / dth m) by reflexivity.
+    destruct (Rlt_dec (th m) y) as [H1|H1].
+    { exists (/ dth m). apply (is_derive_loc finv (fun t => (t + - th m) / dth m + m) y _ (y - th m)); [lra| |apply lin_deriv_div, Hgn].
+      intros t Hq. unfold finv, g, ic. rewrite leaky_inv_hi by (try exact m_pos; lra). reflexivity. }
+    destruct (Rlt_dec y (- th m)) as [H2|H2].
+    { exists (/ dth m). apply (is_derive_loc finv (fun t => (t + th m) / dth m + - m) y _ (- th m - y)); [lra| |apply lin_deriv_div, Hgn].
+      intros t Hq. unfold finv, g, ic. rewrite leaky_inv_lo by (try exact m_pos; lra). reflexivity. }
+    destruct (Req_dec y (th m)) as [->|N1].
+    { exists (/ dth m).
+      apply (is_derive_glue_loc finv ath (fun t => (t + - th m) / dth m + m) (th m) _ (th m) Ht).
+      - intros t Hq. destruct (Req_dec t (th m)) as [->|Nt].
+        + unfold finv, g, ic. rewrite leaky_inv_hi by (try exact m_pos; lra). rewrite ath_th. field. exact Hgn.
+        + unfold finv, g, ic. apply leaky_inv_mid; first [exact m_pos | lra].
+      - intros t Hq. unfold finv, g, ic. rewrite leaky_inv_hi by (try exact m_pos; lra). reflexivity.
+      - rewrite <- Eath. apply ath_deriv. lra.
+      - apply lin_deriv_div, Hgn. }
+    destruct (Req_dec y (- th m)) as [->|N2].
+    { exists (/ dth m).
+      apply (is_derive_glue_loc finv (fun t => (t + th m) / dth m + - m) ath (- th m) _ (th m) Ht).
+      - intros t Hq. unfold finv, g, ic. rewrite leaky_inv_lo by (try exact m_pos; lra). reflexivity.
+      - intros t Hq. destruct (Req_dec t (- th m)) as [->|Nt].
+        + unfold finv, g, ic. rewrite leaky_inv_lo by (try exact m_pos; lra).
+          assert (Ea : ath (- th m) = - m) by (rewrite <- th_odd; apply ath_th).
+          rewrite Ea. field. exact Hgn.
+        + unfold finv, g, ic. apply leaky_inv_mid; first [exact m_pos | lra].
+      - apply lin_deriv_div, Hgn.
+      - replace (/ dth m) with (/ (1 - - th m * - th m)) by (unfold dth; f_equal; ring). apply ath_deriv. lra. }
+    assert (Hy : - th m < y < th m) by lra.
+    exists (/ (1 - y * y)).
+    apply (is_derive_loc finv ath y _ (Rmin (th m - y) (y + th m))); [apply Rmin_pos; lra| |apply ath_deriv; lra].
+    intros t Hq. pose proof (Rmin_l (th m - y) (y + th m)). pose proof (Rmin_r (th m - y) (y + th m)).
+    unfold finv, g, ic. apply leaky_inv_mid; first [exact m_pos | lra].
+  Qed.
+
+  Lemma leaky_inv_layer_ldj : layer_ldj (invert_layer (leaky_layer m)).
+  Proof.
+    apply invert_layer_ldj; [apply leaky_layer_ok, m_pos | apply leaky_layer_ldj, m_pos | apply open_Rall |].
+    intros y _. apply leaky_inv_deriv.
+  Qed.
+End LeakyInvDeriv.
